@@ -1026,10 +1026,11 @@ def ref_check(case, out):
                 if kind == "fix" and not tv[cond] >= tv[old_cond]:
                     value_comparable = False       # the new target has fewer valid children: the reader keeps the others
                     feats.add("ref:fix-flip-onto-fewer-valid-children(value-clause-off)")
-                if kind != "fix" and new_written:
-                    cls = "[C08-ref-A]"
-                if p["shape"] == "tsb2":
-                    cls = "[C08-ref-B]"
+            # the two listed losses of the tree before fix c08_ref_feedback: the sink copies delta_value(), which is not link-aware
+            if nv and kind != "fix" and new_written and p["mode"] == "sel":
+                cls = "[C08-ref-A]"
+            if nv and p["shape"] == "tsb2":
+                cls = "[C08-ref-B]"
             if k and p["script"][k - 1][1] is not None:
                 feats.add("ref:cond-ticks-in-consecutive-cycles")
         if w is not None:
